@@ -136,8 +136,91 @@ def replay(path, intended=False):
 
 
 def selftest(args):
-    print("selftest: see DESIGN.md section 8; not implemented yet")
-    return 2
+    """Demonstrates that the trace specification is bound to what the executor records: a recorded walk is accepted,
+    and each of a set of single-field corruptions of that record (a post-state prong, a dropped callback event, a
+    swapped pair of events, an altered scripted op, a logger line, a plan-log answer, a link of the task pool) is
+    rejected at that record with the tag of the projection it belongs to.  Also prints, for the walk, how often each
+    callback method / op kind / log kind occurred (vacuity check)."""
+    import copy, random
+    fx = checks.fixture(args[0] if args else "plancap")
+    exe = build.build(fx, "plain")
+    d = tlc.scratch("selftest")
+    base = os.path.join(d, "base.ndjson")
+    n, crash = explore.random_walks(fx, exe, base, 12345, 400)
+    if crash:
+        print("executor died:", crash)
+        return 2
+    recs = [json.loads(l) for l in open(base)]
+
+    def judge(records, name):
+        f = os.path.join(d, name + ".ndjson")
+        with open(f, "w") as fh:
+            for r in records:
+                fh.write(json.dumps(r) + "\n")
+        dd, res = explore.validate(fx, [f], dev=checks.open_switches(), jobs=1)
+        shutil.rmtree(dd, ignore_errors=True)
+        if res[0]["error"]:
+            return None
+        return [(x["l"], x["tag"]) for x in res[0]["diffs"] if not x["tag"].endswith((".D10", ".D13"))]
+    ok = True
+    clean = judge(recs, "base")
+    print("unmodified walk of %d records: %s" % (len(recs), "accepted" if clean == [] else "REJECTED %s" % clean[:5]))
+    ok &= clean == []
+
+    def pick(pred):
+        c = [i for i, r in enumerate(recs) if pred(r)]
+        return c[len(c) // 2] if c else None
+    cases = []
+    i = pick(lambda r: isinstance(r["post"], dict) and r["post"]["on"] and r["a"][0] == "update")
+    if i is not None:
+        m = copy.deepcopy(recs); a = m[i]["post"]["act"]; a[-1] = (a[-1] % 2) + 1
+        cases.append(("post-state prong changed", m, i + 1, {"act", "isA", "sub", "mon.wf.post", "strA", "hist"}))
+    i = pick(lambda r: len(r["ev"]) >= 3 and not r["quiet"])
+    if i is not None:
+        m = copy.deepcopy(recs); del m[i]["ev"][1]
+        cases.append(("one callback event dropped", m, i + 1, {"ev.all"}))
+        m = copy.deepcopy(recs); m[i]["ev"][0], m[i]["ev"][1] = m[i]["ev"][1], m[i]["ev"][0]
+        cases.append(("two callback events swapped", m, i + 1, {"ev.all"}))
+    i = pick(lambda r: any(op[0] == "req" for h in r["sc"]["hooks"] for op in h[3]) and r["ev"] and not r["quiet"]
+             and any(h[0] == e[0] and h[1] == e[1] for h in r["sc"]["hooks"] for e in r["ev"] if any(op[0] == "req" for op in h[3])))
+    if i is not None:
+        m = copy.deepcopy(recs)
+        for h in m[i]["sc"]["hooks"]:
+            h[3] = [op for op in h[3] if op[0] != "req"]
+        cases.append(("scripted request removed from the record", m, i + 1, None))
+    i = pick(lambda r: len(r["log"]) >= 2)
+    if i is not None:
+        m = copy.deepcopy(recs); del m[i]["log"][0]
+        cases.append(("one logger line dropped", m, i + 1, {"log.order"}))
+    i = pick(lambda r: any(x[0] == "a" for x in r["plog"]))
+    if i is not None:
+        m = copy.deepcopy(recs)
+        for x in m[i]["plog"]:
+            if x[0] == "a":
+                x[1] = 1 - x[1]
+        cases.append(("append() answer flipped", m, i + 1, {"plog"}))
+    i = pick(lambda r: isinstance(r["post"], dict) and any(x != [0, 0] for x in r["post"]["tl"]))
+    if i is not None:
+        m = copy.deepcopy(recs)
+        tl = m[i]["post"]["tl"]
+        j = next(k for k, x in enumerate(tl) if x != [0, 0])
+        tl[j] = [tl[j][1], tl[j][0]] if tl[j][0] != tl[j][1] else [tl[j][0] + 1, tl[j][1]]
+        cases.append(("task link corrupted", m, i + 1, {"mon.plan.chain", "mon.plan.iter", "mon.plan.count", "mon.plan.free", "mon.plan.disjoint"}))
+    for name, m, at, expect in cases:
+        got = judge(m, "case")
+        here = {t for (l, t) in (got or []) if l == at}
+        good = got is not None and here and (expect is None or here & expect)
+        print("%-45s record %4d: %s %s" % (name, at, "rejected" if good else "NOT REJECTED", sorted(here)[:6]))
+        ok &= bool(good)
+    from collections import Counter
+    meth = Counter(e[1] for r in recs for e in r["ev"])
+    ops = Counter(op[0] for r in recs for h in r["sc"]["hooks"] for op in h[3])
+    logs = Counter(x[0] for r in recs for x in r["log"])
+    print("callbacks seen:", dict(meth))
+    print("scripted ops  :", dict(ops))
+    print("logger lines  :", dict(logs))
+    shutil.rmtree(d, ignore_errors=True)
+    return 0 if ok else 1
 
 
 def _save_vectors(name, lines):
